@@ -187,6 +187,13 @@ def judge(ctx, case):
             routes['snapshot-of-prop+len-target-then-target-mutated'] = lambda: _snapshot_then_mutate(_assign(mcls(), f'{name}{n}', pv), ConstBitStream)
             routes['copy-of-prop+len-target-then-target-mutated'] = lambda: _snapshot_then_mutate(_assign(mcls(), f'{name}{n}', pv), lambda t: t.copy())
             routes['snapshot-of-kw-object-then-object-mutated'] = lambda: _snapshot_then_mutate(mcls(**{name: pv, 'length': n}), Bits)
+            # the token text (or an immutable object holding the value) assigned through the 'bits' property of a mutable object
+            # which is then changed in place: the text still means the value, the immutable object still holds it
+            routes['token-after-text-assigned-to-bits-prop-and-target-mutated'] = lambda: (
+                _mutated(_assign(mcls(), 'bits', f'{name}:{n}={sv}')), cls(f'{name}:{n}={sv}'))[1]
+            routes['token-after-text-assigned-to-bitsN-prop-and-target-mutated'] = lambda: (
+                _mutated(_assign(mcls(), f'bits{nbits}', f'{name}{n}={sv}')), cls(f'{name}{n}={sv}'))[1]
+            routes['kw-object-assigned-to-bits-prop-then-target-mutated'] = lambda: _source_of_mutated_target(Bits(**{name: pv, 'length': n}), mcls)
             if isinstance(pv, str) and pv.isidentifier():
                 # a value that happens to be spelt like the name of an unrelated keyword argument is still a value
                 routes['pack-pos-value-spelt-like-a-keyword'] = lambda: pack(f'{name}:{n}, uint:k_', pv, 0, k_=2, **{pv: 3})[:nbits]
@@ -287,6 +294,12 @@ def _snapshot_then_mutate(t, snap):
     b = snap(t)
     _mutated(t)
     return b
+
+
+def _source_of_mutated_target(src, mcls):
+    _mutated(_assign(mcls(), 'bits', src))
+    _mutated(_assign(mcls(), f'bits{len(src)}', src))
+    return src
 
 
 def _assign(o, attr, v):
